@@ -80,7 +80,10 @@ class FunctionInteractionsUtils(object):
         if len(paths) > len(non_empty_paths) > 0 and current_prefix is not None:
             res.append(current_prefix)
 
-        splits = [DDSPathUtils.split(p) for p in non_empty_paths]
+        # groupby only groups consecutive elements: the paths must be sorted by their first segment
+        splits = sorted(
+            [DDSPathUtils.split(p) for p in non_empty_paths], key=lambda x: x[0]
+        )
         # _logger.debug("non_terminal splits: %s", splits)
         groups = itertools.groupby(splits, lambda x: x[0])
         for (key, l) in groups:
@@ -210,9 +213,9 @@ class FunctionIndirectInteractionUtils(object):
 
         def rec(fis0: FunctionIndirectInteractions) -> None:
             # The FIS may form a DAG
-            if id(fis) in visited:
+            if id(fis0) in visited:
                 return
-            visited.add(id(fis))
+            visited.add(id(fis0))
             res.update((DDSPath(p) for p in fis0.indirect_deps if isinstance(p, str)))
             for fis1 in fis0.indirect_deps:
                 if isinstance(fis1, FunctionIndirectInteractions):
@@ -228,9 +231,9 @@ class FunctionIndirectInteractionUtils(object):
 
         def rec(fis0: FunctionIndirectInteractions) -> None:
             # The FIS may form a DAG
-            if id(fis) in visited:
+            if id(fis0) in visited:
                 return
-            visited.add(id(fis))
+            visited.add(id(fis0))
             if fis0.store_path is not None:
                 res.add(fis0.store_path)
             for fis1 in fis0.indirect_deps:
